@@ -48,7 +48,7 @@ fn compile(text: &str, derives: &str, ctx: &str) -> Outcome {
 }
 
 /// `genmt <jobs> <threads>`: every job is compiled by every thread, all threads running at the same time (barrier start,
-/// each thread walks the job list from a different starting point, three rounds).  One line per (job, thread, round):
+/// three rounds: two in step, one with every thread starting at a different job).  One line per (job, thread, round):
 /// `MT <id> <thread> <round> <class> <hash of the generated code or message>`.
 fn main_threads(jobs: &str, nthreads: usize) {
     use std::collections::hash_map::DefaultHasher;
@@ -82,7 +82,10 @@ fn main_threads(jobs: &str, nthreads: usize) {
                     barrier.wait();
                     for round in 0..3 {
                         for k in 0..list.len() {
-                            let (id, text, der, ctx) = &list[(k + t * 7 + round) % list.len()];
+                            // rounds 0 and 1: all threads walk the list in step (the same grammar is compiled by several threads at once);
+                            // round 2: every thread starts somewhere else
+                            let shift = if round == 2 { t * 7 } else { 0 };
+                            let (id, text, der, ctx) = &list[(k + shift + round) % list.len()];
                             let r = catch_unwind(AssertUnwindSafe(|| compile(text, der, ctx)));
                             let (class, payload) = match r {
                                 Ok(Outcome::Ok(code)) => ("ok", code),
